@@ -31,6 +31,8 @@ func build(cfg string) explore.System {
 		return newPathSys(wc)
 	case "bulk":
 		return newBulkSys(wc)
+	case "multi":
+		return newRoutesSys(wc, f[3])
 	}
 	panic("bad config " + cfg)
 }
@@ -55,54 +57,7 @@ func main() {
 	explore.Main(explore.Spec{
 		ID: "C17", PanicClause: "C17.alive", Build: build,
 		Configs: func(th bool) []explore.Config {
-			if !th {
-				return []explore.Config{
-					{Name: "mgmt hashtable localhop=on pairs=none", MaxDepth: 2, MaxDev: 1},
-					{Name: "path nametree localhop=off -", MaxDepth: 2, MaxDev: -1},
-					// large tables: the datasets must still list exactly the tables
-					{Name: "bulk nametree localhop=off -", MaxDepth: 1, MaxDev: -1},
-					{Name: "path nametree localhop=on -", MaxDepth: 2, MaxDev: -1},
-					// every history of routine commands, NOT de-duplicated on the canonical state: state a
-					// defect adds behind the tables (an aliased slice, a cached value) is in no canonical
-					// form, so the history that exposes it must not be pruned
-					{Name: "history search (no dedup) routine commands, hashtable", BuildName: "mgmt hashtable localhop=on pairs=none", MaxDepth: 4, MaxDev: 0, NoDedup: true},
-					{Name: "history search (no dedup) routine commands, nametree", BuildName: "mgmt nametree localhop=on pairs=none", MaxDepth: 4, MaxDev: 0, NoDedup: true},
-					// the two largest configurations last: they get whatever the cheaper ones left of the budget
-					{Name: "mgmt nametree localhop=off pairs=all", MaxDepth: 2, MaxDev: 1},
-					{Name: "mgmt nametree localhop=on pairs=all", MaxDepth: 2, MaxDev: 1},
-				}
-			}
-			var c []explore.Config
-			fibs, lhs := []string{"nametree", "hashtable"}, []string{"localhop=off", "localhop=on"}
-			each := func(f func(fib, lh string)) {
-				for _, fib := range fibs {
-					for _, lh := range lhs {
-						f(fib, lh)
-					}
-				}
-			}
-			c = append(c, explore.Config{Name: "bulk nametree localhop=off -", MaxDepth: 1, MaxDev: -1})
-			c = append(c, explore.Config{Name: "bulk hashtable localhop=off -", MaxDepth: 1, MaxDev: -1})
-			// cheap configurations first: the budget left over goes to the expensive ones
-			each(func(fib, lh string) {
-				c = append(c, explore.Config{Name: "path " + fib + " " + lh + " -", MaxDepth: 4, MaxDev: -1})
-				// routine commands only, to depth 6
-				c = append(c, explore.Config{Name: "mgmt " + fib + " " + lh + " pairs=none routine", MaxDepth: 6, MaxDev: 0})
-			})
-			each(func(fib, lh string) {
-				// one unusual command (one- or two-field departure at the start, one-field later) anywhere in a three-command history
-				c = append(c, explore.Config{Name: "mgmt " + fib + " " + lh + " pairs=root three-commands", MaxDepth: 3, MaxDev: 1})
-			})
-			each(func(fib, lh string) {
-				// every two-command history over the whole alphabet
-				c = append(c, explore.Config{Name: "mgmt " + fib + " " + lh + " pairs=all two-commands", MaxDepth: 2, MaxDev: 2})
-			})
-			// routine histories without de-duplication (hidden state behind the tables)
-			c = append(c, explore.Config{Name: "history search (no dedup) routine commands, hashtable", BuildName: "mgmt hashtable localhop=on pairs=none", MaxDepth: 5, MaxDev: 0, NoDedup: true})
-			c = append(c, explore.Config{Name: "history search (no dedup) routine commands, nametree", BuildName: "mgmt nametree localhop=on pairs=none", MaxDepth: 4, MaxDev: 0, NoDedup: true})
-			// three-command histories with up to two one-field departures
-			c = append(c, explore.Config{Name: "mgmt nametree localhop=on pairs=none three-commands-two-deviations", MaxDepth: 3, MaxDev: 2})
-			return c
+			return only(allConfigs(th))
 		},
 		Budget: func(th bool) time.Duration {
 			if th {
@@ -110,7 +65,7 @@ func main() {
 			}
 			return 100 * time.Second
 		},
-		Rule:        "BFS over histories of management command Interests delivered through the real internal face to the real management thread (receive loop of Thread.Run() generated verbatim from the current source, all six modules); alphabet = odometer over module/verb x ControlParameters fields (every single-field departure over twelve fields, every two-field departure over the fields the verb reads), damaged parameter components, arrival prefixes, unknown modules/verbs, dataset requests; after every transition: answer status vs three-valued expectation, tables vs reference model, all six datasets vs tables, one Interest sent through every face",
+		Rule:        "BFS over histories of management command Interests delivered through the real internal face to the real management thread (receive loop of Thread.Run() generated verbatim from the current source, all six modules); alphabet = odometer over module/verb x ControlParameters fields (every single-field departure over twelve fields, every two-field departure over the fields the verb reads), damaged parameter components, arrival prefixes, unknown modules/verbs, dataset requests; 'multi' configurations: macro-initial states that fill one RIB entry / FIB entry / the strategy table with k items in every order (odometer over words of faces and origins), then every removal path (unregister, faces/destroy, link down through the real link-service loops, remove-nexthop, unset) and in-place update; after every transition: answer status vs three-valued expectation, tables vs reference model, all six datasets vs tables, one Interest sent through every face",
 		Assumptions: assumptions,
 		Extra: func(rep *report.Reporter, cov report.Coverage) {
 			a := buildAlphabet(true, true)
@@ -121,10 +76,97 @@ func main() {
 				"verbs": len(verbs), "fields": int(nFields),
 				"mtu_domain": []string{"0", "1", "21", "22", "30", "63", "64", "72", "73", "84", "85", "127", "128", "1500", "8800", "8801", "2^63"},
 			}
+			mu := map[string]any{}
+			for _, k := range []string{"rib2", "rib3", "rib4", "fib", "strategy"} {
+				r := newRoutesSys(worldCfg{fibAlgo: "nametree"}, k)
+				mu[k] = map[string]int{"macro_initial_states": len(r.setups), "operations_from_each": len(r.acts)}
+			}
+			cov["multiplicity_universes"] = mu
 			cov["loopback_udp_available"] = loopbackOK()
 			cov["management_step"] = "prologue and receive loop generated verbatim from the current Thread.Run() at check time (stage-2 build)"
 		},
 	})
+}
+
+// only narrows the configuration list to the names containing $VERIF_C17_ONLY (development aid;
+// unset in every regular run).
+func only(c []explore.Config) []explore.Config {
+	f := os.Getenv("VERIF_C17_ONLY")
+	if f == "" {
+		return c
+	}
+	var out []explore.Config
+	for _, x := range c {
+		if strings.Contains(x.Name, f) {
+			out = append(out, x)
+		}
+	}
+	return out
+}
+
+func allConfigs(th bool) []explore.Config {
+	{
+		if !th {
+			return []explore.Config{
+				{Name: "mgmt hashtable localhop=on pairs=none", MaxDepth: 2, MaxDev: 1},
+				{Name: "path nametree localhop=off -", MaxDepth: 2, MaxDev: -1},
+				// large tables: the datasets must still list exactly the tables
+				{Name: "bulk nametree localhop=off -", MaxDepth: 1, MaxDev: -1},
+				{Name: "path nametree localhop=on -", MaxDepth: 2, MaxDev: -1},
+				// entries holding several items, built in every order, then every removal path
+				{Name: "multi nametree localhop=off rib3", MaxDepth: 2, MaxDev: -1},
+				{Name: "multi hashtable localhop=off rib2", MaxDepth: 3, MaxDev: -1},
+				{Name: "multi hashtable localhop=off fib", MaxDepth: 3, MaxDev: -1},
+				{Name: "multi nametree localhop=off strategy", MaxDepth: 3, MaxDev: -1},
+				// every history of routine commands, NOT de-duplicated on the canonical state: state a
+				// defect adds behind the tables (an aliased slice, a cached value) is in no canonical
+				// form, so the history that exposes it must not be pruned
+				{Name: "history search (no dedup) routine commands, hashtable", BuildName: "mgmt hashtable localhop=on pairs=none", MaxDepth: 4, MaxDev: 0, NoDedup: true},
+				{Name: "history search (no dedup) routine commands, nametree", BuildName: "mgmt nametree localhop=on pairs=none", MaxDepth: 4, MaxDev: 0, NoDedup: true},
+				// the two largest configurations last: they get whatever the cheaper ones left of the budget
+				{Name: "mgmt nametree localhop=off pairs=all", MaxDepth: 2, MaxDev: 1},
+				{Name: "mgmt nametree localhop=on pairs=all", MaxDepth: 2, MaxDev: 1},
+			}
+		}
+		var c []explore.Config
+		fibs, lhs := []string{"nametree", "hashtable"}, []string{"localhop=off", "localhop=on"}
+		each := func(f func(fib, lh string)) {
+			for _, fib := range fibs {
+				for _, lh := range lhs {
+					f(fib, lh)
+				}
+			}
+		}
+		c = append(c, explore.Config{Name: "bulk nametree localhop=off -", MaxDepth: 1, MaxDev: -1})
+		c = append(c, explore.Config{Name: "bulk hashtable localhop=off -", MaxDepth: 1, MaxDev: -1})
+		// entries holding several items, built in every order, then every removal path
+		for _, fib := range fibs {
+			c = append(c, explore.Config{Name: "multi " + fib + " localhop=off rib4", MaxDepth: 3, MaxDev: -1})
+			c = append(c, explore.Config{Name: "multi " + fib + " localhop=off rib3", MaxDepth: 4, MaxDev: -1})
+			c = append(c, explore.Config{Name: "multi " + fib + " localhop=off fib", MaxDepth: 4, MaxDev: -1})
+			c = append(c, explore.Config{Name: "multi " + fib + " localhop=off strategy", MaxDepth: 4, MaxDev: -1})
+		}
+		// cheap configurations first: the budget left over goes to the expensive ones
+		each(func(fib, lh string) {
+			c = append(c, explore.Config{Name: "path " + fib + " " + lh + " -", MaxDepth: 4, MaxDev: -1})
+			// routine commands only, to depth 6
+			c = append(c, explore.Config{Name: "mgmt " + fib + " " + lh + " pairs=none routine", MaxDepth: 6, MaxDev: 0})
+		})
+		each(func(fib, lh string) {
+			// one unusual command (one- or two-field departure at the start, one-field later) anywhere in a three-command history
+			c = append(c, explore.Config{Name: "mgmt " + fib + " " + lh + " pairs=root three-commands", MaxDepth: 3, MaxDev: 1})
+		})
+		each(func(fib, lh string) {
+			// every two-command history over the whole alphabet
+			c = append(c, explore.Config{Name: "mgmt " + fib + " " + lh + " pairs=all two-commands", MaxDepth: 2, MaxDev: 2})
+		})
+		// routine histories without de-duplication (hidden state behind the tables)
+		c = append(c, explore.Config{Name: "history search (no dedup) routine commands, hashtable", BuildName: "mgmt hashtable localhop=on pairs=none", MaxDepth: 5, MaxDev: 0, NoDedup: true})
+		c = append(c, explore.Config{Name: "history search (no dedup) routine commands, nametree", BuildName: "mgmt nametree localhop=on pairs=none", MaxDepth: 4, MaxDev: 0, NoDedup: true})
+		// three-command histories with up to two one-field departures
+		c = append(c, explore.Config{Name: "mgmt nametree localhop=on pairs=none three-commands-two-deviations", MaxDepth: 3, MaxDev: 2})
+		return c
+	}
 }
 
 func bench() {
